@@ -14,6 +14,12 @@ ENGINES = [
 NOTES = "Property-based testing and fuzzing only. See DESIGN.md. Known findings: /verif/known_findings.json."
 NOT_APPLICABLE = {}
 CHECKS = {
+    "C08": {
+        "text": "Generated exception forests, a raising callee and an enclosing function or method whose body is a random tree of raising sites nested in branches, loops, match arms, sequences and handles (guarded call, sites inside arms, sites after the handle), with the raise declaration drawn exact / empty / ancestors / random / non-exception; a coverage model decides the expected verdict. ~8k cases per quick run.",
+        "design_ref": "DESIGN.md section 6 C08",
+        "note": "Only verdicts are judged here; that the emitted try/except catches exactly the listed classes is executed by C01 (handler_run counts in its evidence). Every generated block ends in a print so that value-typing of tails cannot interfere. Callee methods are outside the statement.",
+        "technique": "property-based testing: generated handler/declaration structures against a coverage model (Hypothesis)",
+    },
     "C07": {
         "text": "Targeted generation: 12 definition forms (fin or mutable) x 4 assignment operators x 12 positions x 0-2 shadowing re-definitions, plus assignment to undefined names; verdict oracle: reject iff the visible definition, the receiver or self is fin, or the name is undefined. ~11k cases per quick run.",
         "design_ref": "DESIGN.md section 6 C07",
